@@ -115,7 +115,10 @@ func account(sc *scenario, n int, o *outcome, v verdict) {
 	if v.MustCtx {
 		hx.Class("must-be-ctx-error")
 	}
-	if v.HasBound && o.TR == v.Bound {
+	if sc.Peer.SlowDL {
+		hx.Class("conn/slow-set-deadline")
+	}
+	if v.HasBound && o.TR >= v.Bound {
 		phase := "dial-phase"
 		if o.ConnObtained {
 			phase = "handshake-phase"
@@ -163,6 +166,7 @@ func drawConfig(t *rapid.T) *scenario {
 	p.EOF = rapid.IntRange(0, 9).Draw(t, "peerEOF") == 0
 	p.Tail = rapid.SampledFrom([]int{0, 0, 0, 5}).Draw(t, "tail")
 	p.Gate = rapid.SampledFrom([]int{0, 0, 0, 0, 0, 10, 30, -1}).Draw(t, "gate")
+	p.SlowDL = rapid.IntRange(0, 2).Draw(t, "slowSetDeadline") == 0
 	return sc
 }
 
@@ -362,11 +366,12 @@ var enumPeers = []enumPeer{
 }
 
 type enumCfg struct {
-	ctx            string
-	deadline       int
-	timeout        int
-	dialDelay      int
-	rbuf, wbuf     int
+	ctx        string
+	deadline   int
+	timeout    int
+	dialDelay  int
+	rbuf, wbuf int
+	slowDL     bool
 }
 
 // The limits of these configurations lie beyond every peer event, so the
@@ -378,6 +383,8 @@ var enumCfgs = []enumCfg{
 	{ctx: "deadline", deadline: 993, timeout: 985, rbuf: 128},
 	{ctx: "custom", timeout: 995, wbuf: 200},
 	{ctx: "value", rbuf: 32},
+	{ctx: "cancel", slowDL: true},
+	{ctx: "deadline", deadline: 993, timeout: 985, wbuf: 64, slowDL: true},
 }
 
 // TestEveryIOIndex enumerates, for a fixed set of configurations and peers,
@@ -395,6 +402,7 @@ func TestEveryIOIndex(t *testing.T) {
 				continue
 			}
 			base := scenario{Ctx: cfg.ctx, Deadline: cfg.deadline, Timeout: cfg.timeout, DialDelay: cfg.dialDelay, RBuf: cfg.rbuf, WBuf: cfg.wbuf, Peer: ep.p}
+			base.Peer.SlowDL = cfg.slowDL
 			n, dryOut, dryV := dryRun(t, &base)
 			if dryV.Violation != "" || dryV.Infra != "" {
 				hx.Failf(t, describe(&base, n, dryOut, dryV), "dry run (background context): %s%s", dryV.Violation, dryV.Infra)
@@ -437,7 +445,7 @@ func TestEveryIOIndex(t *testing.T) {
 			}
 		}
 	}
-	hx.Part("cancel before/after every handshake I/O index (forced) + unforced race at the last + pre/dial-return/after-return/never, 6 configurations x 11 peers", total, true)
+	hx.Part("cancel before/after every handshake I/O index (forced) + unforced race at the last + pre/dial-return/after-return/never, 8 configurations x 11 peers", total, true)
 }
 
 // TestEveryExpiryInstant enumerates the timer-driven ends: for stalling and
@@ -477,12 +485,13 @@ func TestEveryExpiryInstant(t *testing.T) {
 	idx := 0
 	for _, ep := range peers {
 		for _, dialDelay := range []int{0, 20} {
-			for _, wbuf := range []int{0, 64} {
+			for wi, wbuf := range []int{0, 64, 0} {
 				idx++
 				if !hx.Mine(idx) {
 					continue
 				}
 				base := scenario{DialDelay: dialDelay, WBuf: wbuf, Peer: ep.p}
+				base.Peer.SlowDL = wi == 2
 				n, _, _ := dryRun(t, &base)
 				for _, l := range limits {
 					for k := 0; k <= 7; k++ {
@@ -507,7 +516,7 @@ func TestEveryExpiryInstant(t *testing.T) {
 			}
 		}
 	}
-	hx.Part("11 kinds of limit x 8 instants x 5 stalling/slow peers x NetDial delay {0,20ms} x write buffer {default,64}", total, true)
+	hx.Part("11 kinds of limit x 8 instants x 5 stalling/slow peers x NetDial delay {0,20ms} x {default write buffer, 64-byte write buffer, slow SetDeadline}", total, true)
 }
 
 // ---------------------------------------------------------------------------
